@@ -677,3 +677,37 @@ Example ex_better_rank_preferred :
   /\ snd (process ex_c (run ex_c [OAdd (mkEC 1 1 0 false 8); OAdd (mkEC 2 1 0 false 8); OAdd (mkEC 0 0 0 false 7)] new_pool) 1 false)
      = PStillWaiting.
 Proof. split; vm_compute; reflexivity. Qed.
+
+(* ====================================================================== *)
+(* ---------- votes of non-members do not influence processing ---------- *)
+
+Lemma gather_ext d hr0 strag timeout v1 v2 ms : forall t,
+  (forall n, In n (map snd ms) -> aget n v1 = aget n v2) ->
+  gather d hr0 strag timeout v1 ms t = gather d hr0 strag timeout v2 ms t.
+Proof.
+  induction ms as [|[ro k] r IH]; intros t Hext; cbn [gather]; [reflexivity|].
+  assert (Hr : forall n, In n (map snd r) -> aget n v1 = aget n v2).
+  { intros n Hn. apply Hext. right. exact Hn. }
+  rewrite (Hext k (or_introl eq_refl)).
+  destruct (negb (counts d ro)); [apply IH; exact Hr|].
+  destruct (aget k v2) as [[h|]|]; cbn zeta; rewrite !IH by exact Hr; reflexivity.
+Qed.
+
+Lemma process_ignores_non_member_votes c p sc sc' strag timeout :
+  aget (hr p) (scs p) = Some sc ->
+  sc_commit sc' = sc_commit sc ->
+  (forall n, is_member c n = true -> aget n (sc_votes sc') = aget n (sc_votes sc)) ->
+  outcome_code (process_inner c (mkPool (hr p) (aset (hr p) sc' (scs p)) (disc p)) strag timeout)
+  = outcome_code (process_inner c p strag timeout).
+Proof.
+  intros Ha Hc Hv. unfold process_inner. cbn [hr scs disc]. rewrite aget_aset_same, Ha.
+  rewrite (gather_ext (disc p) (hr p) strag timeout (sc_votes sc') (sc_votes sc) c tally0).
+  2:{ intros n Hn. apply Hv. apply is_member_in. exact Hn. }
+  destruct (gather (disc p) (hr p) strag timeout (sc_votes sc) c tally0) as [t|]; [|reflexivity].
+  destruct (negb (disc p)).
+  - destruct (_ || _); [reflexivity|]. destruct (0 <? _)%Z; reflexivity.
+  - destruct (vbest (t_votes t) 0 0) as [h best].
+    destruct (_ <? _); [reflexivity|]. destruct (_ && _); [reflexivity|].
+    destruct (best <? _); [reflexivity|]. rewrite Hc. destruct (sc_commit sc); [|reflexivity].
+    destruct (negb _); reflexivity.
+Qed.
